@@ -685,4 +685,89 @@ theorem nextTurn_twice (s : St) (node : String) (before mid after : List Tok) (w
 /-- the shape is inhabited: two tokens wait at `U`, one of another node between them -/
 example : (nextTurn { vars := [], parked := [⟨1, "X"⟩, ⟨2, "U"⟩, ⟨3, "Y"⟩, ⟨4, "U"⟩, ⟨5, "X"⟩] } "U" []).1 = [⟨2, "U"⟩] := by decide
 
+/-! ## first come, first served for every number of returns -/
+
+/-- `k` successive returns at `node`: the tokens that took their turn, in order, and the state after -/
+def turns : Nat → St → String → List Tok × St
+  | 0, s, _ => ([], s)
+  | k + 1, s, node =>
+    let (a, s1) := nextTurn s node []
+    let (b, s2) := turns k s1 node
+    (a ++ b, s2)
+
+theorem find_eq_head_filter (l : List Tok) (node : String) :
+    l.find? (·.node == node) = (l.filter (·.node == node)).head? := by
+  induction l with
+  | nil => rfl
+  | cons x xs ih =>
+    by_cases h : (x.node == node) = true
+    · simp [h]
+    · have h' : (x.node == node) = false := by simpa using h
+      rw [List.find?_cons, List.filter_cons]
+      simp only [h', Bool.false_eq_true, if_false]
+      exact ih
+
+theorem filter_drop_head (l : List Tok) (node : String) (w : Tok) (hn : l.Nodup)
+    (hw : l.find? (·.node == node) = some w) :
+    (l.filter (· != w)).filter (·.node == node) = (l.filter (·.node == node)).tail := by
+  induction l with
+  | nil => simp at hw
+  | cons x xs ih =>
+    have hx := List.nodup_cons.mp hn
+    by_cases h : (x.node == node) = true
+    · have : x = w := by simpa [List.find?_cons, h] using hw
+      subst this
+      have e : (x != x) = false := by simp
+      simp only [List.filter_cons, e, h, if_true, Bool.false_eq_true, if_false, List.tail_cons]
+      rw [filter_ne_of_not_mem xs x hx.1]
+    · have hw' : xs.find? (·.node == node) = some w := by simpa [List.find?_cons, h] using hw
+      have hne : x ≠ w := by
+        intro e; subst e
+        have := List.find?_some hw'
+        exact h (by simpa using this)
+      have e : (x != w) = true := by simpa using hne
+      simp only [List.filter_cons, e, h, if_true, Bool.false_eq_true, if_false]
+      exact ih hx.2 hw'
+
+/-- FIRST COME, FIRST SERVED, for every number of returns: `k` successive returns at one node serve exactly the first `k`
+tokens waiting at that node, in the order in which they arrived there -/
+theorem turns_fifo (k : Nat) : ∀ (s : St) (node : String), s.parked.Nodup →
+    (turns k s node).1 = (s.parked.filter (·.node == node)).take k := by
+  induction k with
+  | zero => intro s node _; simp [turns]
+  | succ k ih =>
+    intro s node hn
+    simp only [turns]
+    have hfst := nextTurn_fst s node []
+    cases hf : s.parked.find? (·.node == node) with
+    | none =>
+      have hidle := nextTurn_idle s node [] hf
+      have hnil : s.parked.filter (·.node == node) = [] := by
+        have := find_eq_head_filter s.parked node
+        rw [hf] at this
+        exact List.head?_eq_none_iff.mp this.symm
+      rw [hidle]
+      simp only [List.nil_append]
+      rw [ih s node hn, hnil]
+      simp
+    | some w =>
+      have hp := nextTurn_parked_of_find s node [] w hf
+      have hn' := nextTurn_parked_nodup s node [] hn
+      have h1 : (nextTurn s node []).1 = [w] := by simp [hfst, hf]
+      have hhead : (s.parked.filter (·.node == node)).head? = some w := by
+        rw [← find_eq_head_filter]; exact hf
+      have hcons : s.parked.filter (·.node == node) = w :: (s.parked.filter (·.node == node)).tail := by
+        cases hl : s.parked.filter (·.node == node) with
+        | nil => rw [hl] at hhead; simp at hhead
+        | cons y ys => rw [hl] at hhead; simp at hhead; simp [hhead]
+      have hrec := ih (nextTurn s node []).2 node hn'
+      rw [hp, filter_drop_head s.parked node w hn hf] at hrec
+      show (nextTurn s node []).1 ++ (turns k (nextTurn s node []).2 node).1 = _
+      rw [h1, hrec, hcons]
+      simp
+
+/-- evaluation: three returns at `U` serve 2, 4, 6 in that order; the fourth finds nobody -/
+example : (turns 4 { vars := [], parked := [⟨1, "X"⟩, ⟨2, "U"⟩, ⟨3, "Y"⟩, ⟨4, "U"⟩, ⟨5, "X"⟩, ⟨6, "U"⟩] } "U").1
+    = [⟨2, "U"⟩, ⟨4, "U"⟩, ⟨6, "U"⟩] := by decide
+
 end Bpmn.Props.C12Turns
